@@ -41,6 +41,10 @@ def converter_cls(name: str):
     return {"basic": BasicConverter, "pydantic": PydanticConverter, "default": DefaultConverter}[name]
 
 
+BAD_RETURNS = {"set": lambda: {1, 2}, "bytes": lambda: b"\x00\xff", "object": object, "tuple_key": lambda: {(1, 2): 3}, "complex": lambda: 1 + 2j,
+               "nested": lambda: {"ok": [1, {"deep": {3}}]}}
+
+
 class World:
     def __init__(self, loop, kind: str = "mem", *, latency=None, seed: int = 0, converter: str = "basic",
                  args_bucket: bool = True, result_bucket: bool = True, bucket_kind=None, amqp_opts=None):
@@ -114,7 +118,7 @@ class World:
             world.actor_starts += 1
             world.max_inflight = max(world.max_inflight, world.inflight)
             log.add(k="actor_start", id=id_, attempt=attempt, actor=name, queue=m.key.queue, topic=m.key.topic, iteration=world.iteration.get(id_, 0), reg=tag,
-                    inflight=world.inflight, params_ts=m.parameters.timestamp.isoformat(),
+                    inflight=world.inflight, label=script.get("label"), prio=m.key.priority, params_ts=m.parameters.timestamp.isoformat(), retries_max=m.parameters.retries.max_amount,
                     next=m.parameters.delay.next_execution_time.isoformat() if m.parameters.delay.next_execution_time else None)
             try:
                 d = st.get("d", 0)
@@ -124,6 +128,10 @@ class World:
                 if do == "ok":
                     log.add(k="actor_end", id=id_, attempt=attempt, actor=name)
                     return st.get("ret")
+                if do == "badret":
+                    # finishes normally with a value its converter cannot encode: the execution counts as failed
+                    log.add(k="actor_raise", id=id_, attempt=attempt, actor=name, exc="TypeError(unencodable return value)")
+                    return BAD_RETURNS[st.get("what", "set")]()
                 if do == "hang_cleanup":
                     # runs into its execution timeout and then takes a while to unwind (awaits in its cancellation handler)
                     try:
